@@ -475,37 +475,17 @@ impl Decompressor {
 
     /// Public: get the reference segment for a group (loads and caches if needed)
     pub fn get_reference_segment(&mut self, group_id: u32) -> Result<Contig> {
-        if let Some(ref_data) = self.segment_cache.get(&group_id) {
-            return Ok(ref_data.clone());
+        // Raw groups (0-15) have no reference stream
+        if group_id < 16 {
+            anyhow::bail!("Group {group_id} is a raw group and has no reference segment");
         }
 
-        let archive_version = ragc_common::AGC_FILE_MAJOR * 1000 + ragc_common::AGC_FILE_MINOR;
-        let ref_stream_name = stream_ref_name(archive_version, group_id);
-        let stream_id = self
-            .archive
-            .get_stream_id(&ref_stream_name)
-            .ok_or_else(|| anyhow!("Reference stream not found: {}", ref_stream_name))?;
-
-        let (mut data, metadata) = self.archive.get_part_by_id(stream_id, 0)?;
-        // Decompress if needed; metadata holds original length for packed format
-        let decompressed = if data.is_empty() {
-            Vec::new()
-        } else if data.last() == Some(&0) {
-            // Plain ZSTD stream with marker 0
-            data.pop();
-            decompress_segment_with_marker(&data, 0)?
-        } else {
-            // Tuple-packed with marker 1
-            let marker = data.pop().unwrap();
-            decompress_segment_with_marker(&data, marker)?
-        };
-
-        // Unpack 2-bit encoded reference to 1-byte bases if needed
-        // decompress_segment_with_marker returns bytes in the stored format for references
-        // Our helper already returns decompressed raw bytes for references
-        let reference = decompressed;
-        self.segment_cache.insert(group_id, reference.clone());
-        Ok(reference)
+        // Decode through the same path extraction uses (in_group_id 0 = the reference). This
+        // function used to guess the compression marker from the last stored byte instead of
+        // from the part metadata, so a reference that is stored raw failed to decode (or decoded
+        // to garbage) on a fresh handle, while the same call succeeded once get_segment() had
+        // put the correctly decoded reference into the cache.
+        self.get_segment(&SegmentDesc::new(group_id, 0, false, 0))
     }
 
     /// Extract all contigs from a sample
